@@ -43,7 +43,7 @@ def job_weights_fp(res, it):
         for x in w[1:]: tot = z3.fpAdd(z3.RNE(), tot, x)
         one = z3.FPVal(1.0, z3.Float32()); tol = z3.FPVal(3e-6, z3.Float32())
         prove(res, 'weights it=%d: for EVERY float f in [0,1) the float weights sum to 1 within 3e-6 (IEEE theory)' % it, s.pc,
-              z3.Not(z3.fpLEQ(z3.fpAbs(z3.fpSub(z3.RNE(), tot, one)), tol)), key='weights-float-sum', cex_fn=lambda m: {'replay': 'coeff', 'it': it, 'f': mval(m, f)}, timeout_ms=120000)
+              z3.Not(z3.fpLEQ(z3.fpAbs(z3.fpSub(z3.RNE(), tot, one)), tol)), key='weights-float-sum', cex_fn=lambda m: {'replay': 'coeff', 'it': it, 'f': mval(m, f)}, timeout_ms=400000)
         return
     ex = Exec(mod, snap, EpsDom()); st = State()
     f = z3.Real('f'); st.pc += [f >= 0, f < 1]
@@ -55,10 +55,12 @@ def job_weights_fp(res, it):
         # per-weight lemma |fl(w_j) - w_j| <= 5e-7 ; composes to |sum fl(w) - 1| <= 4*5e-7 + 1e-7 + 3 additions*2^-24*2 < 3e-6
         prove(res, 'weights it=%d: |fl(w_%d(f)) - w_%d(f)| <= 5e-7 for every f in [0,1) under the (1+e) rounding model (%d error terms)' % (it, j, j, len(eps)),
               list(s.pc) + eps, z3.Or(w[j] - wr[j] > z3.RealVal('5/10000000'), w[j] - wr[j] < -z3.RealVal('5/10000000')), key='weights-float-enclosure',
-              cex_fn=lambda m, j=j: {'replay': 'coeff', 'it': it, 'f': mval(m, f), 'weight': j}, timeout_ms=120000)
+              cex_fn=lambda m, j=j: {'replay': 'coeff', 'it': it, 'f': mval(m, f), 'weight': j}, timeout_ms=400000)
 
-def job_shift(res, n, nb, it, axis, b, r):
-    """whole-cell shift of row r of bunch b by every k that fits: output bit pattern == input shifted by k, zeros flow in (z3 IEEE theory)"""
+PRE = 0.37
+def job_shift(res, n, nb, it, axis, b, r, hist=False):
+    """whole-cell shift of row r of bunch b by every k that fits: output bit pattern == input shifted by k, zeros flow in (z3 IEEE theory).
+    hist: the same map object has kicked before with a fractional displacement on every row (whatever that left in the table must not show)."""
     bld = maps_build(); mod = load_module(bld, MAPS_MODS)
     snap, R, pre = maps_world(bld, n, nb, it)
     km = 'kmy' if axis else 'kmx'; off = 'offy' if axis else 'offx'
@@ -66,8 +68,13 @@ def job_shift(res, n, nb, it, axis, b, r):
     F32s = z3.Float32()
     for k in range(-(n - 1), n):
         ex = Exec(mod, snap, FPDom()); st = State()
-        ob = b if axis else 0
-        ex.write_bytes(st, R[off + '_data'] + 4 * (ob * n + r), struct.pack('<f', float(k)))
+        ob = b if axis else 0; offdata = R[off + '_data']
+        if hist:
+            for j in range(nb * n): ex.write_bytes(st, offdata + 4 * j, struct.pack('<f', PRE + 0.01 * (j % 5)))
+            st = ex.run1(st, 'e_km_swap_apply', [R[km], R[off]]); st.frames = []
+            offdata = vec_data_ptr(ex, st, R[off])          # swapOffset exchanged the vectors: the caller's vector now owns the map's former buffer
+            for j in range(nb * n): ex.write_bytes(st, offdata + 4 * j, bytes(4))
+        ex.write_bytes(st, offdata + 4 * (ob * n + r), struct.pack('<f', float(k)))
         ds = []
         for i in range(n):
             v = z3.FP('d%d' % i, F32s); ds.append(v); st.sym[cell('data_in', i)] = (4, 'f', v)
@@ -89,9 +96,9 @@ def job_shift(res, n, nb, it, axis, b, r):
                 bad.append(z3.Not(same))
             else:
                 bad.append(z3.Not(z3.fpIsZero(o)))
-        def cex(m, k=k): return {'replay': 'shift', 'n': n, 'nb': nb, 'it': it, 'axis': axis, 'bunch': b, 'row': r, 'k': k, 'row_data': [mval(m, v) for v in ds]}
-        prove(res, 'whole-cell shift n=%d it=%d %s-kick bunch %d row %d k=%+d: out[i] is bit-identical to in[i%+d], zeros flow in (all finite floats)%s' % (n, it, 'y' if axis else 'x', b, r, k, k, '' if inrange else ' [beyond the map\'s range: each cell is the shifted value or zero]'),
-              s.pc, z3.Or(*bad), key='whole-cell-shift', cex_fn=cex, timeout_ms=120000)
+        def cex(m, k=k): return {'replay': 'shift', 'n': n, 'nb': nb, 'it': it, 'axis': axis, 'bunch': b, 'row': r, 'k': k, 'row_data': [mval(m, v) for v in ds], 'hist': hist}
+        prove(res, 'whole-cell shift%s n=%d it=%d %s-kick bunch %d row %d k=%+d: out[i] is bit-identical to in[i%+d], zeros flow in (all finite floats)%s' % (' after an earlier fractional kick of the same map' if hist else '', n, it, 'y' if axis else 'x', b, r, k, k, '' if inrange else ' [beyond the map\'s range: each cell is the shifted value or zero]'),
+              s.pc, z3.Or(*bad), key='whole-cell-shift', cex_fn=cex, timeout_ms=400000)
 
 def job_poly(res, n, it, axis, r, kmax):
     """fractional shift off = k + f of a polynomial row of degree < it with symbolic coefficients: interior outputs equal p(y + off)"""
@@ -116,7 +123,7 @@ def job_poly(res, n, it, axis, r, kmax):
             bad.append(z3.Or(e > tol, e < -tol))
         def cex(m): return {'replay': 'poly', 'n': n, 'it': it, 'axis': axis, 'row': r, 'off': mval(m, o), 'coeffs': [mval(m, c) for c in cs], 'kmax': kmax}
         prove(res, 'polynomial reproduction n=%d it=%d %s-kick row %d case %s: out[y] == p(y+off) for all interior y, all coefficients in [-1,1] (tol %s)' % (n, it, 'y' if axis else 'x', r, kcase, tol),
-              s.pc, z3.Or(*bad), key='poly-reproduction', cex_fn=cex, timeout_ms=120000)
+              s.pc, z3.Or(*bad), key='poly-reproduction', cex_fn=cex, timeout_ms=400000)
     if it >= 2:
         s = sts[0]; o2 = z3.Real('off_alt'); i = n // 2; out = ex.dom.z(ex.load(s, cell('data_out', i), F32))
         witness(res, 'polynomial row output depends on off (n=%d it=%d)' % (n, it), list(s.pc) + [z3.substitute(c, (o, o2)) for c in s.pc if 'off' in str(c)], z3.substitute(out, (o, o2)) != out)
@@ -133,7 +140,9 @@ def replayer(bld):
             vals = [float(v) if not isinstance(v, str) else 1.0 for v in c['row_data']]
             for i, v in enumerate(vals): data[b * n * n + (r * n + i if axis else i * n + r)] = v
             off = [0.0] * (nb * n); off[(b if axis else 0) * n + r] = float(k)
-            o = native_run(bld, {'what': 'kick', 'n': n, 'nb': nb, 'it': it, 'seed': 7, 'axis': axis, 'data': data, 'off': off}, 'c02')
+            spec = {'what': 'kick', 'n': n, 'nb': nb, 'it': it, 'seed': 7, 'axis': axis, 'data': data, 'off': off}
+            if c.get('hist'): spec['pre_off'] = [PRE + 0.01 * (j % 5) for j in range(nb * n)]
+            o = native_run(bld, spec, 'c02')
             bad = 0
             for i in range(n):
                 got = o['out'][b * n * n + (r * n + i if axis else i * n + r)]; src = i + k
@@ -164,9 +173,11 @@ def main(tier):
     jobs = [(job_weights, (it,)) for it in (1, 2, 3, 4)] + [(job_weights_fp, (it,)) for it in (1, 2, 3, 4)]
     if tier == 'quick':
         jobs += [(job_shift, (n, nb, it, axis, (nb - 1) if axis else 0, r)) for n, nb in ((6, 2), (5, 1)) for it in (1, 2, 3, 4) for axis in (0, 1) for r in (0, 3)]
+        jobs += [(job_shift, (n, nb, it, axis, (nb - 1) if axis else 0, r, True)) for n, nb in ((6, 2), (5, 1)) for it in (2, 4) for axis in (0, 1) for r in (3,)]
         jobs += [(job_poly, (n, it, axis, r, 1)) for n in (10, 11) for it in (1, 2, 3, 4) for axis in (0, 1) for r in (0, 5)]
     else:
         jobs += [(job_shift, (n, nb, it, axis, b, r)) for n, nb in ((6, 2), (9, 1)) for it in (1, 2, 3, 4) for axis in (0, 1) for b in range(nb) for r in range(n)]
+        jobs += [(job_shift, (n, nb, it, axis, b, r, True)) for n, nb in ((6, 2), (9, 1)) for it in (1, 2, 3, 4) for axis in (0, 1) for b in range(nb) for r in (0, n // 2, n - 1)]
         jobs += [(job_poly, (n, it, axis, r, 2)) for n in (10, 12) for it in (1, 2, 3, 4) for axis in (0, 1) for r in range(n)]
     chk.bounds = {'weights': 'every real f in [0,1) (exact reals); every float f for it<=2 in the IEEE theory; (1+e)-enclosure per weight for it=3,4; f=0 concrete IEEE',
                   'whole-cell shifts': 'grids 6 and 5 (quick) / 6,9 (thorough), every k with |k| < n, both axes, it=1..4, one row at a time with all n cells arbitrary finite floats (z3 FP theory, bit patterns compared; sign of zero not distinguished)',
